@@ -28,10 +28,11 @@ type fmtK struct {
 }
 
 type op struct {
-	k    byte // P W F T A S
+	k    byte // P W F T A S R Z
 	text string
 	fs   []fmtK
 	tok  int
+	r    rune // R: argument of WriteRune (any int32)
 }
 
 func (f fmtK) formatter() entity.Formatter {
@@ -117,6 +118,8 @@ func (o op) String() string {
 		return "F:" + cps(o.text) + ":" + fmts(o.fs)
 	case 'A':
 		return fmt.Sprintf("A:%d:%s", o.tok, fmts(o.fs))
+	case 'R':
+		return fmt.Sprintf("R:%d", o.r)
 	}
 	return string(o.k)
 }
@@ -182,6 +185,16 @@ func genOps(r *hc.RNG, shrink bool) []op {
 	ntok := 0
 	var open []int
 	for i := 0; i < n; i++ {
+		if r.Chance(6) { // WriteRune with any int32, in particular values that are not scalar values
+			ops = append(ops, op{k: 'R', r: hc.Pick[rune](r, 0xD800, 0xD83D, 0xDC00, 0xDFFF, 0x110000, -1, 0x7FFFFFFF, -0x80000000,
+				0x10FFFF, 0x10000, 0xFFFF, 0x1F600, 'a', ' ', 0xFFFD, 0, rune(r.U64()))})
+			continue
+		}
+		if r.Chance(3) { // the builder is re-used for another message; tokens of the old one are dropped
+			ops = append(ops, op{k: 'Z'})
+			ntok, open = 0, nil
+			continue
+		}
 		switch r.Intn(9) {
 		case 0:
 			ops = append(ops, op{k: 'P', text: genPiece(r)})
@@ -242,17 +255,36 @@ func apply(ops []op, r *hc.RNG) (b *entity.Builder, full []rune, spans []span, h
 			b.Plain(o.text)
 			full = append(full, []rune(o.text)...)
 		case 'W':
-			switch r.Intn(3) {
-			case 0:
+			switch w := r.Intn(4); {
+			case w == 0:
 				_, _ = b.Write([]byte(o.text))
-			case 1:
+			case w == 1:
 				_, _ = b.WriteString(o.text)
+			case w == 2 && len(o.text) == 1 && o.text[0] < 0x80:
+				_ = b.WriteByte(o.text[0])
 			default:
 				for _, c := range o.text {
 					_, _ = b.WriteRune(c)
 				}
 			}
 			full = append(full, []rune(o.text)...)
+		case 'R':
+			_, _ = b.WriteRune(o.r)
+			if utf8.ValidRune(o.r) {
+				full = append(full, o.r)
+			} else {
+				full = append(full, utf8.RuneError)
+			}
+		case 'Z':
+			switch r.Intn(3) {
+			case 0:
+				b.Reset()
+			case 1:
+				_, _ = b.Raw()
+			default:
+				_, _ = b.Complete()
+			}
+			full, spans, toks, tokAt, hasShrink = nil, nil, nil, nil, false
 		case 'F':
 			if o.text != "" {
 				for _, f := range o.fs {
@@ -391,6 +423,13 @@ func run(c *hc.Ctx) error {
 		{{k: 'P', text: "pre"}, {k: 'F', text: "abc\nabc\n\n\n", fs: []fmtK{{kind: 0}, {kind: 1}}}},
 		{{k: 'F', text: "😀 　", fs: []fmtK{{kind: 0}}}},
 		{{k: 'F', text: "   ", fs: []fmtK{{kind: 0}}}},
+		// WriteRune of values that are not Unicode scalar values, then an entity
+		{{k: 'R', r: 0xD83D}, {k: 'R', r: 0x110000}, {k: 'R', r: -1}, {k: 'F', text: "x", fs: []fmtK{{kind: 0}}}},
+		// re-use after Reset: stale lengths/lastFormatIndex of the first message
+		{{k: 'F', text: "old message  ", fs: []fmtK{{kind: 0}}}, {k: 'Z'}, {k: 'W', text: "ab"}, {k: 'T'}, {k: 'W', text: "c  "}, {k: 'A', tok: 0, fs: []fmtK{{kind: 1}}}},
+		{{k: 'F', text: "old message  ", fs: []fmtK{{kind: 0}}}, {k: 'Z'}, {k: 'P', text: "ab  "}},
+		// multi-byte trailing white space (the cut is measured in UTF-16 units, not bytes)
+		{{k: 'F', text: "😀 \u3000", fs: []fmtK{{kind: 0}}}},
 	}
 	n := c.N(20000, 600000)
 	for i := 0; i < n+len(fixed); i++ {
@@ -474,8 +513,8 @@ func run(c *hc.Ctx) error {
 		lines = append(lines, "u16len "+cps(s), "trim "+cps(s))
 		impls = append(impls, strconv.Itoa(entity.ComputeLength(s)), cps(strings.TrimRightFunc(s, unicode.IsSpace)))
 	}
-	c.Res.Rule = "op lists of 1..14 builder operations (Plain, Write/WriteString/WriteRune, Format with 0..3 formatters, Token, Token.Apply nested and overlapping, ShrinkPreCode in 30% of lists) over pieces drawn from ASCII, BMP, astral, combining marks, all 25 Unicode white-space code points and near-misses, 35% of pieces ending in white space; non-trivial = at least one entity and a non-ASCII character; distinct = distinct op list"
-	c.PartialNote("Builder.WriteByte with a byte of a multi-byte rune, strings that are not valid UTF-8, and tokens used after Reset are outside the model (C35 quantifies over whole Unicode string pieces)")
+	c.Res.Rule = "op lists of 1..14 builder operations (Plain, Write/WriteString/WriteByte/WriteRune, WriteRune of arbitrary int32 incl. surrogate halves / > U+10FFFF / negative, Reset/Raw/Complete in the middle = builder re-use, Format with 0..3 formatters, Token, Token.Apply nested and overlapping, ShrinkPreCode in 30% of lists) over pieces drawn from ASCII, BMP, astral, combining marks, all 25 Unicode white-space code points and near-misses, 35% of pieces ending in white space; non-trivial = at least one entity and a non-ASCII character; distinct = distinct op list"
+	c.PartialNote("Builder.WriteByte with a byte of a multi-byte rune, strings that are not valid UTF-8 (see C37), and a Token applied to another message than the one it was taken from are outside the model (C35 quantifies over whole Unicode string pieces)")
 	outs, err := c.Drv.Batch(lines)
 	if err != nil {
 		return err
